@@ -4,14 +4,26 @@ import AsynqModel.Proofs.Debug
 # C18  Diagnostics are faithful and total: glued tracebacks, stack, repr, filter
 
 Theorems about the model `AsynqModel.Debug` (Lib/Debug.lean).
+
+Headline statements (what the property text says, about the model):
+  filter : `C18_filter_sound`, `C18_filter_id`, `C18_filter_first_match`, observer `C18_filter_spec_holds` / `_observer_sound`
+  glue   : `C18_glue` (model = sequential reading `ref`), `C18_glue_crosses` / `_crosses_own` / `_crosses_hook` (the literal
+           "one frame per level in call order ending at the raiser"), `C18_glue_shape`
+  stack  : `C18_glue_refines_partial` (ALL events of a run = the reference events), `C18_glue_observer_exact`,
+           `C18_stack_orphan_counterexample` (open finding), `C18_stackSafe_exact_small` (the hypothesis is needed, and no more)
+  repr   : `C18_repr_holders_total` (every holder, every value shape), `C18_format_error_total`
+Statements that hold by construction of the model (kept, not headline; their content is the correspondence run):
+  `C18_repr_total_partial`, `C18_repr_raises_iff`, `C18_repr_spec_holds_partial`, `C18_extract_tb_hides_only_library`,
+  `C18_repr_flags_needed`.
 -/
 namespace AsynqModel.Debug
 
 /-! ## filter_traceback -/
 
-/-- **soundness of the filter, for ALL pattern tables and ALL line lists**: the output is the input with some disjoint
-    COMPLETE runs each replaced by the marker of its table entry; every other line is copied unchanged and in order
-    (`Renders` is exactly that statement).  No partial run is ever collapsed. -/
+/-- **soundness of the filter, for all pattern tables WITHOUT AN EMPTY PATTERN LIST (`tablesOK`) and all line lists**: the
+    output is the input with some disjoint COMPLETE runs each replaced by the marker of its table entry; every other
+    line is copied unchanged and in order (`Renders` is exactly that statement).  No partial run is ever collapsed.
+    (`tablesOK` is needed, `C18_filter_tablesOK_needed`; the real function does not terminate on such a table.) -/
 theorem C18_filter_sound (tbl : List Repl) (hok : tablesOK tbl = true) (lines : List Line) :
     Renders tbl lines (filterTb tbl lines) :=
   go_renders tbl hok lines.length lines (Nat.le_refl _)
@@ -78,6 +90,14 @@ theorem C18_filter_first_match (tbl : List Repl) (l : Line) (ls : List Line) :
     have := firstMatch_none.mp hn r hr
     rw [(matchRun_iff _ _).mpr hc] at this
     exact absurd this (by decide)
+
+/-- `tablesOK` cannot be dropped: with an empty pattern list the model's output is not a rendering (and the Python
+    function loops for ever: `i = i + 0`) -/
+theorem C18_filter_tablesOK_needed : ¬ Renders [⟨[], 7⟩] [⟨0, []⟩] (filterTb [⟨[], 7⟩] [⟨0, []⟩]) := by
+  intro h
+  have := rendersB_complete _ h
+  revert this
+  decide
 
 /-! ## traceback gluing -/
 
@@ -190,37 +210,137 @@ theorem C18_glue_shape (bottom : Bottom) (levels : List Level) :
       | errFuture => exact hstep tok fs (by simpa only [ref] using h)
     | cons L' rest' => exact hstep tok fs (by simpa only [ref] using h)
 
+theorem ref_cons (bottom : Bottom) (lv : Nat) (L : Level) (rest : List Level)
+    (hh : rest ≠ [] ∨ ∀ r k, bottom ≠ .hook r k) :
+    ref bottom lv (L :: rest) = refStep lv L (ref bottom (lv + 1) rest) := by
+  cases rest with
+  | nil => cases bottom <;> simp_all [ref]
+  | cons => simp [ref]
+
+theorem refStep_head (lv : Nat) (L : Level) (child : Option (Nat × List Frame)) (tok : Nat) (fs : List Frame)
+    (h : refStep lv L child = some (tok, fs)) : fs.head? = some (.task lv) := by
+  have hown : ∀ tok fs, (L.own.map fun h => (ownTok lv, raisedIn lv h)) = some (tok, fs) → fs.head? = some (.task lv) := by
+    intro tok fs ho
+    cases hx : L.own with
+    | none => simp [hx] at ho
+    | some h' =>
+      simp only [hx, Option.map_some, Option.some.injEq, Prod.mk.injEq] at ho
+      simp [← ho.2, raisedIn]
+  simp only [refStep] at h
+  cases child with
+  | none => exact hown tok fs h
+  | some p =>
+    obtain ⟨tok', fs'⟩ := p
+    cases hh : L.handler with
+    | raiseNew hd =>
+      simp only [hh, Option.some.injEq, Prod.mk.injEq] at h
+      simp [← h.2, raisedIn]
+    | swallow =>
+      simp only [hh] at h
+      exact hown tok fs h
+    | pass | bare | named =>
+      simp only [hh, Option.some.injEq, Prod.mk.injEq] at h
+      simp [← h.2]
+
+/-- unless the raiser is a context hook of the awaiter itself, the traceback of an exception that reaches the awaiter
+    of level `lv` STARTS with the generator frame of level `lv` (so `GluedShape` holds with `n ≥ 1`: never empty) -/
+theorem C18_glue_starts_at_awaiter (bottom : Bottom) (lv : Nat) (L : Level) (rest : List Level) (tok : Nat) (fs : List Frame)
+    (hh : rest ≠ [] ∨ ∀ r k, bottom ≠ .hook r k) (h : ref bottom lv (L :: rest) = some (tok, fs)) :
+    fs.head? = some (.task lv) := by
+  rw [ref_cons bottom lv L rest hh] at h
+  exact refStep_head lv L _ tok fs h
+
+/-- **the literal reading of the gluing clause, reference side**: an exception that leaves the levels `tail` with frames
+    `fs` and then crosses the `d = pre.length` levels `pre` - each of which lets it pass (no handler, `except: raise`,
+    `except E as e: raise e`), whatever its await style, orphan flag, or the code after its await - arrives with
+    exactly one generator frame per crossed level in front, outermost first, and is still THAT exception -/
+theorem C18_ref_passing_prefix (bottom : Bottom) (pre tail : List Level)
+    (hpre : ∀ L ∈ pre, L.handler.passes = true) (htail : tail ≠ []) :
+    ∀ (lv tok : Nat) (fs : List Frame), ref bottom (lv + pre.length) tail = some (tok, fs) →
+      ref bottom lv (pre ++ tail) = some (tok, (List.range' lv pre.length).map Frame.task ++ fs) := by
+  induction pre with
+  | nil => intro lv tok fs h; simpa using h
+  | cons L pre ih =>
+    intro lv tok fs h
+    have hL := hpre L (by simp)
+    have h' : ref bottom (lv + 1 + pre.length) tail = some (tok, fs) := by
+      rw [← h]; congr 1; simp only [List.length_cons]; omega
+    have := ih (fun M hM => hpre M (by simp [hM])) (lv + 1) tok fs h'
+    rw [List.cons_append, ref_cons bottom lv L (pre ++ tail) (Or.inl (by simp [htail])), this]
+    cases hh : L.handler <;> simp [Handler.passes, hh] at hL <;> simp [refStep, hh, List.range'_succ]
+
+/-- **... and what the caller catches in the model of the code**: the same exception object, its traceback =
+    the caller's frame, one frame per crossed level `0 .. d-1` in call order, then the frames `fs` the exception had
+    when it left `tail`; `format_error` prints the same without the caller.  For every frame rule, bottom, and chain. -/
+theorem C18_glue_crosses (rule : FrameRule) (bottom : Bottom) (pre tail : List Level) (tok : Nat) (fs : List Frame)
+    (hpre : ∀ L ∈ pre, L.handler.passes = true) (htail : tail ≠ [])
+    (href : ref bottom pre.length tail = some (tok, fs)) :
+    ∃ e, (run rule bottom 0 [] (pre ++ tail)).out = some e ∧ e.tok = tok ∧
+      userFrames (callerView e) = .caller :: ((List.range pre.length).map Frame.task ++ fs) ∧
+      userFrames e.tb = (List.range pre.length).map Frame.task ++ fs := by
+  have hg := C18_glue rule bottom (pre ++ tail)
+  have hr := C18_ref_passing_prefix bottom pre tail hpre htail 0 tok fs (by simpa using href)
+  rw [hr] at hg
+  cases ho : (run rule bottom 0 [] (pre ++ tail)).out with
+  | none => simp [ho] at hg
+  | some e =>
+    simp only [ho] at hg
+    exact ⟨e, rfl, hg.1, by rw [hg.2.1, List.range_eq_range'], by rw [hg.2.2, List.range_eq_range']⟩
+
+/-- instance: level `d` raises its own exception through `h` nested helper calls (the levels below it returned, or it
+    swallowed what they raised) and `d` passing levels await it: the caller sees
+    caller, L0, ..., Ld, H(d,1), ..., H(d,h) - one frame per task level, in call order, ending at the raising frame -/
+theorem C18_glue_crosses_own (rule : FrameRule) (bottom : Bottom) (pre : List Level) (R : Level) (below : List Level) (h : Nat)
+    (hpre : ∀ L ∈ pre, L.handler.passes = true) (hown : R.own = some h)
+    (hbelow : ref bottom (pre.length + 1) below = none ∨ R.handler = .swallow)
+    (hh : below ≠ [] ∨ ∀ r k, bottom ≠ .hook r k) :
+    ∃ e, (run rule bottom 0 [] (pre ++ R :: below)).out = some e ∧ e.tok = ownTok pre.length ∧
+      userFrames (callerView e) = .caller :: ((List.range (pre.length + 1)).map Frame.task ++
+        (List.range h).map (fun k => Frame.helper pre.length (k + 1))) := by
+  have href : ref bottom pre.length (R :: below) = some (ownTok pre.length, raisedIn pre.length h) := by
+    rw [ref_cons bottom pre.length R below hh]
+    rcases hbelow with hb | hb
+    · simp [refStep, hb, hown]
+    · cases hc : ref bottom (pre.length + 1) below <;> simp [refStep, hb, hown]
+  obtain ⟨e, h1, h2, h3, _⟩ := C18_glue_crosses rule bottom pre (R :: below) _ _ hpre (by simp) href
+  exact ⟨e, h1, h2, by rw [h3]; simp [raisedIn, List.range_succ]⟩
+
+/-- instance: the raiser is `pause()` / `resume()` of a context entered by the innermost level `d` (blocked on a batch
+    item), called by the scheduler through `h` helpers: the caller sees caller, L0, ..., L(d-1), the hook, its helpers.
+    The generator frame of level `d` itself is NOT there - it is not on the Python stack when the scheduler calls the hook. -/
+theorem C18_glue_crosses_hook (rule : FrameRule) (onResume : Bool) (h : Nat) (pre : List Level) (R : Level)
+    (hpre : ∀ L ∈ pre, L.handler.passes = true) :
+    ∃ e, (run rule (.hook onResume h) 0 [] (pre ++ [R])).out = some e ∧ e.tok = hookTok ∧
+      userFrames (callerView e) = .caller :: ((List.range pre.length).map Frame.task ++ hookFrames pre.length h) := by
+  obtain ⟨e, h1, h2, h3, _⟩ := C18_glue_crosses rule (.hook onResume h) pre [R] hookTok (hookFrames pre.length h) hpre
+    (by simp) (by simp [ref])
+  exact ⟨e, h1, h2, h3⟩
+
 /-- asynq.debug.extract_tb (which skips frames of modules that set `__traceback_hide__`) hides library frames only:
     every user frame stays, in order -/
 theorem C18_extract_tb_hides_only_library (fs : List Frame) : userFrames (visible fs) = userFrames fs :=
   userFrames_visible fs
 
-/-! ## the asynq stack -/
+/-! ## the asynq stack and the whole observation of a run -/
 
-/-- `AsyncTask.traceback()` = the creator chain, outermost first, one line per task (induction on the depth) -/
-theorem C18_stack_creator_chain (line : Nat → Frame) (d : Nat) :
-    tracebackOf line d = (List.range (d + 1)).map line := by
-  induction d with
-  | zero => rfl
-  | succ d ih => rw [tracebackOf, ih, List.range_succ (n := d + 1)]; simp
-
-/-- `format_asynq_stack()` called inside the body of level `lv` (before its await, or in its except clause) lists
-    levels `0 .. lv`, outermost first - for every chain -/
-theorem C18_stack_in_body (rule : FrameRule) (bottom : Bottom) (levels : List Level) :
-    ∀ ev ∈ (run rule bottom 0 [] levels).events,
-      ∃ k lv, (k = .start ∨ k = .handler) ∧ ev = .stack k lv (List.range (lv + 1)) :=
+/-- **`format_asynq_stack()` inside the bodies, for every chain and frame rule**: the model's bodies record exactly the
+    reference events - every level asks when it starts, a level with an `except` clause asks again iff the level below
+    delivered an exception (model: the stored error; reference: `ref`), in that order, and each is told the levels
+    `0 .. lv`, outermost first.  (That each answer is `0 .. lv` holds by construction of `run`: the creators of a
+    running task are suspended in their await and show their own generator frame; the content of this theorem is
+    WHICH events occur - it ties `child.out` of the traceback machinery to the sequential reading.) -/
+theorem C18_stack_events_exact (rule : FrameRule) (bottom : Bottom) (levels : List Level) :
+    (run rule bottom 0 [] levels).events = refEvents bottom 0 levels :=
   run_events rule bottom levels 0 [] rfl
 
-/-- a task created by level `i` and run after the whole chain has finished (whatever failed meanwhile) lists
-    `0 .. i` and itself - provided no level lets an exception of a SYNCHRONOUSLY called child pass (`syncSafe`), or
+/-- a task created by level `i` and run after the whole chain has finished (whatever failed meanwhile) lists `0 .. i`
+    and itself, for EVERY orphan of the chain - provided no orphan is created at or below a level that let the
+    exception of a SYNCHRONOUSLY called child pass (`stackSafe`, evaluated on the reference behaviour of the chain), or
     `_frame` is filled with a frame of the task's own synchronous code (`FrameRule.own`, not the code as it is) -/
 theorem C18_stack_orphan_partial (rule : FrameRule) (bottom : Bottom) (levels : List Level)
-    (hsafe : rule = .own ∨ syncSafe levels = true) :
-    ∀ ev ∈ orphanEvents (run rule bottom 0 [] levels).lines 0 levels,
-      ∃ i, ev = .stack .orphan i (List.range (i + 1) ++ [1000 + i]) := by
-  have hl := run_lines rule bottom levels hsafe 0 []
-  rw [← List.range_eq_range'] at hl
-  exact orphanEvents_spec _ levels.length hl levels 0 (by simp)
+    (hsafe : rule = .own ∨ stackSafe bottom 0 levels = true) :
+    orphanEvents (run rule bottom 0 [] levels).lines 0 levels = refOrphans 0 levels := by
+  simpa using run_orphans rule bottom levels 0 [] [] rfl rfl hsafe
 
 /-- ... and without that hypothesis it is FALSE of the current code: level 0 calls level 1 synchronously, level 1
     raises; `_continue_on_generator` stores the deepest traceback frame - level 1's - as level 0's `_frame`, so the
@@ -231,97 +351,154 @@ theorem C18_stack_orphan_counterexample :
       [.stack .start 0 [0], .stack .start 1 [0, 1],
        .result (some (11, [.caller, .task 0, .task 1], [.caller, .task 0, .task 1], [.task 0, .task 1])),
        .stack .orphan 0 [1, 1000]] ∧
-    glueSpec .none [{ await := .sync, handler := .pass, own := none, orphan := true },
+    glueClause .none [{ await := .sync, handler := .pass, own := none, orphan := true },
                     { await := .yld, handler := .pass, own := some 0, orphan := false }]
       (runTop .deepest .none [{ await := .sync, handler := .pass, own := none, orphan := true },
-                     { await := .yld, handler := .pass, own := some 0, orphan := false }]) = false := by
+                     { await := .yld, handler := .pass, own := some 0, orphan := false }]) = "stack-foreign-entry-sync" := by
   decide
 
-/-- **the glue / stack observer accepts every run of the model** (for `syncSafe` chains): the Boolean function the
+/-- **refinement: the whole observation of a run of the model of the code = the reference observation** (stack events
+    of the bodies, the result with raw / extract_tb / format_error frames, the orphans' stacks), for all `stackSafe`
+    chains of every depth -/
+theorem C18_glue_refines_partial (rule : FrameRule) (bottom : Bottom) (levels : List Level)
+    (hsafe : rule = .own ∨ stackSafe bottom 0 levels = true) :
+    runTop rule bottom levels = refTop bottom levels := by
+  have hglue := C18_glue rule bottom levels
+  have hres : resultEvent (run rule bottom 0 [] levels).out = refResult (ref bottom 0 levels) := by
+    cases ho : (run rule bottom 0 [] levels).out with
+    | none =>
+      rw [ho] at hglue
+      cases hr : ref bottom 0 levels with
+      | none => rfl
+      | some p => simp [hr] at hglue
+    | some e =>
+      rw [ho] at hglue
+      cases hr : ref bottom 0 levels with
+      | none => simp [hr] at hglue
+      | some p =>
+        obtain ⟨tok, fs⟩ := p
+        simp only [hr] at hglue
+        obtain ⟨h1, h2, h3⟩ := hglue
+        simp [resultEvent, refResult, h1, h2, h3, userFrames_visible]
+  simp only [runTop, refTop, C18_stack_events_exact, hres, C18_stack_orphan_partial rule bottom levels hsafe]
+
+/-- **what `SPEC=ok` means for the events of an implementation run: they ARE the reference events** - nothing missing,
+    nothing extra, nothing reordered (both directions) -/
+theorem C18_glue_observer_exact (bottom : Bottom) (levels : List Level) (events : List Event) :
+    glueClause bottom levels events = "ok" ↔ events = refTop bottom levels := by
+  unfold glueClause
+  constructor
+  · intro h
+    by_cases he : (events == refTop bottom levels) = true
+    · exact eq_of_beq he
+    · exfalso
+      simp only [he, Bool.false_eq_true, if_false] at h
+      split at h
+      · exact absurd h (by decide)
+      · rename_i hw
+        exact hw (by simp [h])
+  · intro h
+    simp [h]
+
+/-- **the glue / stack observer accepts every run of the model** (for `stackSafe` chains): the Boolean function the
     check evaluates on the implementation's events is satisfied by the model's events -/
 theorem C18_glue_spec_holds_partial (rule : FrameRule) (bottom : Bottom) (levels : List Level)
-    (hsafe : rule = .own ∨ syncSafe levels = true) :
-    glueClause bottom levels (runTop rule bottom levels) = "ok" := by
-  have hbody := C18_stack_in_body rule bottom levels
-  have horph := C18_stack_orphan_partial rule bottom levels hsafe
-  have hglue := C18_glue rule bottom levels
-  have hall : ∀ ev ∈ runTop rule bottom levels, glueEventClause bottom levels ev = "ok" := by
-    intro ev hev
-    simp only [runTop, List.mem_append, List.mem_singleton] at hev
-    rcases hev with (hev | rfl) | hev
-    · obtain ⟨k, lv, hk, rfl⟩ := hbody ev hev
-      rcases hk with rfl | rfl <;> simp [glueEventClause]
-    · cases ho : (run rule bottom 0 [] levels).out with
-      | none =>
-        rw [ho] at hglue
-        cases hr : ref bottom 0 levels with
-        | none => simp [resultEvent, glueEventClause, hr]
-        | some p => simp [hr] at hglue
-      | some e =>
-        rw [ho] at hglue
-        cases hr : ref bottom 0 levels with
-        | none => simp [hr] at hglue
-        | some p =>
-          obtain ⟨tok, fs⟩ := p
-          simp only [hr] at hglue
-          obtain ⟨h1, h2, h3⟩ := hglue
-          simp [resultEvent, glueEventClause, hr, h1, h2, h3, userFrames_visible]
-    · obtain ⟨i, rfl⟩ := horph ev hev
-      simp [glueEventClause]
-  have hcount : ((runTop rule bottom levels).filter Event.isResult).length = 1 := by
-    have h1 : ((run rule bottom 0 [] levels).events.filter Event.isResult) = [] := by
-      rw [List.filter_eq_nil_iff]
-      intro ev hev
-      obtain ⟨k, lv, _, rfl⟩ := hbody ev hev
-      simp [Event.isResult]
-    have h2 : ((orphanEvents (run rule bottom 0 [] levels).lines 0 levels).filter Event.isResult) = [] := by
-      rw [List.filter_eq_nil_iff]
-      intro ev hev
-      obtain ⟨j, ls, rfl⟩ := orphanEvents_not_result _ _ _ ev hev
-      simp [Event.isResult]
-    simp only [runTop, List.filter_append, h1, h2]
-    cases (run rule bottom 0 [] levels).out <;> rfl
-  have hbad : ((runTop rule bottom levels).map (glueEventClause bottom levels)).filter (· != "ok") = [] := by
-    rw [List.filter_eq_nil_iff]
-    intro c hc
-    simp only [List.mem_map] at hc
-    obtain ⟨ev, hev, rfl⟩ := hc
-    simp [hall ev hev]
-  simp [glueClause, hbad, hcount]
+    (hsafe : rule = .own ∨ stackSafe bottom 0 levels = true) :
+    glueClause bottom levels (runTop rule bottom levels) = "ok" :=
+  (C18_glue_observer_exact bottom levels _).mpr (C18_glue_refines_partial rule bottom levels hsafe)
 
 /-! ## str / repr / dump -/
 
-/-- the two places where the current code can raise: `_AsyncGenerator.__repr__` reading an attribute that
-    `__init__` never sets, and a ConstFuture / ErrorFuture describing itself before `_in_repr` exists -/
+/-- where the model of the current code can fail: `_AsyncGenerator.__repr__` reading an attribute that `__init__` never
+    sets (flag lists extracted from the source), a ConstFuture / ErrorFuture describing itself before `_in_repr`
+    exists (flag extracted from the source), and `format_error` given something that is neither None nor an exception
+    together with a traceback -/
 def wellFormed : Obj → Bool
   | .asyncGen init reads => subset reads init
   | .constInit inReprSet => inReprSet
+  | .fmtErr i => !feRaises i
   | _ => true
 
-/-- **totality**: for every object kind, every abstract lifecycle state and every operation `str` / `repr` / `dump`
-    the diagnostic returns (never raises), under the explicit hypothesis `wellFormed` -/
+/-- totality, BY CONSTRUCTION OF THE MODEL (`render` is a total function whose only failing branches are the ones
+    `wellFormed` names): for every object kind, abstract lifecycle state and operation the diagnostic returns.  The
+    content of the "never raise" clause is carried by the correspondence run (state table on the real classes). -/
 theorem C18_repr_total_partial (o : Obj) (op : Op) (h : wellFormed o = true) : (render o op).isOk = true := by
-  cases o <;> cases op <;> simp_all [render, Res.isOk, wellFormed]
+  cases o with
+  | holder k p => cases k <;> cases op <;> first | (simp [render, fmtOf, pct, Res.isOk]; done) | (cases p <;> simp_all [render, fmtOf, pct, Res.isOk, wellFormed])
+  | fmtErr i => cases op <;> simp_all [render, Res.isOk, wellFormed]
+  | _ => cases op <;> simp_all [render, Res.isOk, wellFormed]
 
-/-- ... and the hypothesis is needed for the code as it is: `_AsyncGenerator.__init__` sets `generator`(0),
-    `last_task`(1), `is_stopped`(2) while `__repr__` reads `generator`(0) and `stopped`(3) - AttributeError in every
-    state; a ConstFuture under DUMP_COMPUTED describes itself before `_in_repr` is assigned -/
-theorem C18_repr_counterexample :
+/-- ... and exactly there (the hypothesis is necessary cell by cell) -/
+theorem C18_repr_raises_iff (o : Obj) (op : Op) : (render o op).isOk = wellFormed o := by
+  cases o with
+  | asyncGen i r => cases op <;> (simp only [render, wellFormed]; cases subset r i <;> simp [Res.isOk])
+  | constInit b => cases op <;> (simp only [render, wellFormed]; cases b <;> simp [Res.isOk])
+  | holder k p =>
+    cases k <;> cases op <;> first
+      | (simp [render, fmtOf, pct, Res.isOk, wellFormed]; done)
+      | (rcases p with (_ | _ | n) | _ <;> simp [render, fmtOf, pct, Res.isOk, wellFormed])
+  | fmtErr i => cases op <;> (simp only [render, wellFormed]; cases feRaises i <;> simp [Res.isOk])
+  | _ => cases op <;> simp [render, Res.isOk, wellFormed]
+
+/-- the totality observer accepts the model's answer for every well-formed object inside the statement - and for every
+    object outside it (`format_error` of a non-exception), whatever happens -/
+theorem C18_repr_spec_holds_partial (kind opName : String) (o : Obj) (op : Op)
+    (h : wellFormed o = true ∨ inStatement o = false) : reprClause kind opName o (render o op) = "ok" := by
+  rcases h with h | h
+  · have := C18_repr_total_partial o op h
+    cases hr : render o op with
+    | ok s => simp [reprClause]
+    | raised x => simp [hr, Res.isOk] at this
+  · simp [reprClause, h]
+
+/-- every object whose text is one format string over a held value (scoped values, their override contexts,
+    `generator.Value`) describes itself whatever the shape of that value - tuples of any length included: no holder
+    hands the value to `%` as the right operand (`Fmt.bare` is what `generator.Value` did before the fix, `pct` shows
+    what that meant) -/
+theorem C18_repr_holders_total (k : Holder) (p : PayShape) (op : Op) : render (.holder k p) op = .ok .text := by
+  cases k <;> cases op <;> simp [render, fmtOf, pct]
+
+/-- ... and the wrapping is needed: a bare `%` fails on tuples (CPython's `%`, as modelled by `pct`) -/
+theorem C18_bare_percent_fails :
+    pct .bare (.tuple 0) = .raised .typeError ∧ pct .bare (.tuple 1) = .raised .misdescribed ∧
+    pct .bare (.tuple 2) = .raised .typeError := by
+  decide
+
+/-- the flag hypotheses of `wellFormed` are needed (these were the code before the fixes bd367ef / e06b222):
+    `_AsyncGenerator.__init__` setting `generator`(0), `last_task`(1), `is_stopped`(2) while `__repr__` reads
+    `generator`(0) and `stopped`(3) - AttributeError in every state; a ConstFuture under DUMP_COMPUTED describing itself
+    before `_in_repr` is assigned -/
+theorem C18_repr_flags_needed :
     render (.asyncGen [0, 1, 2] [0, 3]) .repr = .raised .attributeError ∧
     render (.asyncGen [0, 1, 2] [0, 3]) .str = .raised .attributeError ∧
     render (.constInit false) .dump = .raised .attributeError := by
   decide
 
-/-- `format_error` accepts any exception with or without traceback: it returns None exactly for None, and for an
-    exception a text - with a traceback part iff a traceback was passed or stored by asynq on the exception -/
-theorem C18_format_error_total (i : FeIn) :
+/-- **`format_error` accepts any exception with or without traceback** (`isExc`, or None): it never raises, returns
+    None exactly for None, and for an exception a text - with a traceback part iff a traceback was passed or stored by
+    asynq on the exception.  (For something that is neither None nor an exception the statement says nothing; with a
+    traceback the code raises AttributeError - `C18_format_error_non_exception`.) -/
+theorem C18_format_error_total (i : FeIn) (h : i.isNone = true ∨ i.isExc = true) :
+    (∀ op, (render (.fmtErr i) op).isOk = true) ∧
     (formatError i = .none ↔ i.isNone = true) ∧
-    (i.isNone = false → i.isExc = true → formatError i = .withTraceback ∨ formatError i = .onlyException) ∧
+    (i.isNone = false → formatError i = .withTraceback ∨ formatError i = .onlyException) ∧
     (formatError i = .withTraceback ↔ (i.isNone = false ∧ (i.tbArg = true ∨ i.tbAttr = some true))) := by
   obtain ⟨n, x, ta, tg⟩ := i
-  cases n <;> cases x <;> cases tg <;> rcases ta with _ | _ | _ <;> simp [formatError]
+  refine ⟨fun op => ?_, ?_⟩
+  · cases op <;> cases n <;> cases x <;> simp_all [render, feRaises, Res.isOk]
+  · cases n <;> cases x <;> cases tg <;> rcases ta with _ | _ | _ <;> simp_all [formatError]
 
-/-! ## non-vacuity -/
+/-- outside the statement: `format_error("some string", tb)` (debug.py:120-122 hands the object to
+    `traceback.format_exception`) raises AttributeError in the model of the code; without any traceback it returns an
+    empty text.  The observer does not judge these cells (`inStatement`). -/
+theorem C18_format_error_non_exception :
+    render (.fmtErr ⟨false, false, none, true⟩) .str = .raised .attributeError ∧
+    render (.fmtErr ⟨false, false, some true, false⟩) .str = .raised .attributeError ∧
+    render (.fmtErr ⟨false, false, none, false⟩) .str = .ok (.fe .empty) ∧
+    reprClause "formatError" "str" (.fmtErr ⟨false, false, none, true⟩) (.raised .attributeError) = "ok" := by
+  decide
+
+/-! ## non-vacuity, and what the observers reject -/
 
 /-- the three tables of debug.py (patterns numbered as the harness numbers them); a traceback with a complete
     TASK_CONTINUE run, a partial FUTURE_BASE run and foreign lines: only the complete run collapses -/
@@ -331,20 +508,33 @@ example :
       [.copy ⟨0, []⟩, .marker 0, .copy ⟨4, [2]⟩, .copy ⟨5, [3, 7]⟩, .copy ⟨6, []⟩] := by
   decide
 
-/-- the observer is not trivially true: it rejects an output that collapses a partial run -/
+/-- the filter observer is not trivially true: it rejects an output that collapses a partial run -/
 example :
     filterClause [⟨[0, 1, 1], 0⟩] [⟨0, [0]⟩, ⟨1, [0, 1]⟩, ⟨2, []⟩] [.marker 0, .copy ⟨2, []⟩] =
       "marker-replaces-incomplete-run" := by
   decide
 
+/-- ... and refuses a table with an empty pattern list, whatever the output -/
+example : filterClause [⟨[], 7⟩] [⟨0, []⟩] [.marker 7, .copy ⟨0, []⟩] = "empty-pattern-list" := by decide
+
+/-- `C18_filter_id` is not vacuous: a traceback with partial runs only -/
+example : filterTb [⟨[0, 1, 1], 0⟩] [⟨0, [0]⟩, ⟨1, [1]⟩, ⟨2, []⟩, ⟨3, [1]⟩] =
+    [.copy ⟨0, [0]⟩, .copy ⟨1, [1]⟩, .copy ⟨2, []⟩, .copy ⟨3, [1]⟩] := by decide
+
+def Lp : Level := ⟨.yld, .pass, none, false⟩
+def Lr (h : Nat) : Level := ⟨.yld, .pass, some h, false⟩
+
 /-- a chain of depth 3 where level 2 raises inside two helpers, level 1 re-raises with `raise e`, level 0 passes:
-    the caller sees caller, L0, L1, L2, H2_1, H2_2 -/
+    the caller sees caller, L0, L1, L2, H2_1, H2_2 (an instance of `C18_glue_crosses_own`) -/
 example :
     (runTop .deepest .none [⟨.yld, .pass, none, false⟩, ⟨.yld, .named, none, false⟩, ⟨.yld, .pass, some 2, false⟩]).getLast? =
       some (.result (some (21, [.caller, .task 0, .task 1, .task 2, .helper 2 1, .helper 2 2],
         [.caller, .task 0, .task 1, .task 2, .helper 2 1, .helper 2 2],
         [.task 0, .task 1, .task 2, .helper 2 1, .helper 2 2]))) := by
   decide
+
+/-- the hypotheses of `C18_glue_crosses_own` are satisfiable with a swallowing raiser above a failing level -/
+example : ref .none 1 [⟨.sync, .swallow, some 1, true⟩, Lr 0] = some (11, [.task 1, .helper 1 1]) := by decide
 
 /-- with `_frame` kept inside the task's own frames (`FrameRule.own`) the chain of `C18_stack_orphan_counterexample`
     gives the orphan its real creator -/
@@ -353,26 +543,88 @@ example :
       some (.stack .orphan 0 [0, 1000]) := by
   decide
 
+/-- `stackSafe` is weaker than the syntactic condition it replaces ("no level awaits synchronously without catching"):
+    a synchronous call that does not fail, and one that fails where no orphan looks, are covered -/
+example : stackSafe .none 0 [⟨.sync, .pass, none, true⟩] = true ∧
+    stackSafe .none 0 [⟨.sync, .bare, some 2, true⟩, ⟨.yld, .pass, none, true⟩] = true ∧
+    stackSafe .none 0 [⟨.yld, .pass, none, true⟩, ⟨.sync, .pass, none, false⟩, Lr 0] = true ∧
+    stackSafe .none 0 [⟨.yld, .pass, none, false⟩, ⟨.sync, .pass, none, false⟩, ⟨.yld, .pass, some 0, true⟩] = false := by
+  decide
+
 /-- the raiser is a context hook: level 2 blocks on a batch item inside `with ctx:`, `ctx.pause()` raises from one helper
     while the scheduler suspends the task; the caller sees caller, L0, L1, the hook, its helper -/
 example :
-    (runTop .deepest (.hook false 1) [⟨.yld, .pass, none, false⟩, ⟨.yld, .pass, none, false⟩, ⟨.yld, .pass, none, false⟩]).getLast? =
+    (runTop .deepest (.hook false 1) [Lp, Lp, Lp]).getLast? =
       some (.result (some (4, [.caller, .task 0, .task 1, .hook 2, .hookHelper 2 1],
         [.caller, .task 0, .task 1, .hook 2, .hookHelper 2 1], [.task 0, .task 1, .hook 2, .hookHelper 2 1]))) := by
   decide
 
-/-- ... and the observer rejects a delivered traceback that stops above the hook (stored traceback lost) -/
+/-- the observer rejects a delivered traceback that stops above the hook (stored traceback lost) -/
 example :
-    glueClause (.hook true 0) [⟨.yld, .pass, none, false⟩, ⟨.yld, .pass, none, false⟩]
+    glueClause (.hook true 0) [Lp, Lp]
       [.stack .start 0 [0], .stack .start 1 [0, 1],
        .result (some (4, [.caller, .task 0], [.caller, .task 0], [.task 0]))] = "glued-traceback" := by
   decide
 
-/-- the glue observer rejects a traceback that lost a level -/
+/-- the observer rejects a traceback that lost a level -/
 example :
-    glueClause .none [⟨.yld, .pass, none, false⟩, ⟨.yld, .pass, some 0, false⟩]
+    glueClause .none [Lp, Lr 0]
       [.stack .start 0 [0], .stack .start 1 [0, 1],
        .result (some (11, [.caller, .task 1], [.caller, .task 1], [.task 1]))] = "glued-traceback" := by
+  decide
+
+/-- audit B5 (a): an event list with NO stack events at all is rejected -/
+example :
+    glueClause .none [Lp, Lr 0]
+      [.result (some (11, [.caller, .task 0, .task 1], [.caller, .task 0, .task 1], [.task 0, .task 1]))] =
+      "stack-event-missing" := by
+  decide
+
+/-- audit B5 (b): stack events of levels that do not exist, duplicated, or of an orphan nobody created are rejected -/
+example :
+    glueClause .none [Lp, Lr 0]
+      [.stack .start 7 (List.range 8), .stack .handler 5 (List.range 6), .stack .orphan 3 [0, 1, 2, 3, 1003],
+       .result (some (11, [.caller, .task 0, .task 1], [.caller, .task 0, .task 1], [.task 0, .task 1]))] =
+      "stack-event-wrong-slot" ∧
+    glueClause .none [Lp, Lr 0]
+      [.stack .start 0 [0], .stack .start 1 [0, 1], .stack .start 1 [0, 1],
+       .result (some (11, [.caller, .task 0, .task 1], [.caller, .task 0, .task 1], [.task 0, .task 1]))] =
+      "unexpected-event" ∧
+    glueClause .none [Lp, Lr 0]
+      [.stack .start 0 [0], .stack .start 1 [0, 1],
+       .result (some (11, [.caller, .task 0, .task 1], [.caller, .task 0, .task 1], [.task 0, .task 1])),
+       .stack .orphan 0 [0, 1000]] = "unexpected-event" ∧
+    glueClause .none [Lp, Lr 0]
+      [.stack .start 0 [0], .stack .start 1 [0, 1],
+       .result (some (11, [.caller, .task 0, .task 1], [.caller, .task 0, .task 1], [.task 0, .task 1])),
+       .result none] = "unexpected-event" := by
+  decide
+
+/-- a handler that did not ask although the level below failed, a missing orphan, a missing result -/
+example :
+    glueClause .none [⟨.yld, .named, none, true⟩, Lr 0]
+      [.stack .start 0 [0], .stack .start 1 [0, 1],
+       .result (some (11, [.caller, .task 0, .task 1], [.caller, .task 0, .task 1], [.task 0, .task 1])),
+       .stack .orphan 0 [0, 1000]] = "stack-event-missing" ∧
+    glueClause .none [⟨.yld, .named, none, true⟩, Lr 0]
+      [.stack .start 0 [0], .stack .start 1 [0, 1], .stack .handler 0 [0],
+       .result (some (11, [.caller, .task 0, .task 1], [.caller, .task 0, .task 1], [.task 0, .task 1]))] =
+      "stack-event-missing" ∧
+    glueClause .none [⟨.yld, .named, none, true⟩, Lr 0]
+      [.stack .start 0 [0], .stack .start 1 [0, 1], .stack .handler 0 [0]] = "no-result" := by
+  decide
+
+/-- ... while the model's own run of that chain is accepted (`C18_glue_spec_holds_partial` is not vacuous) -/
+example : glueClause .none [⟨.yld, .named, none, true⟩, Lr 0] (runTop .deepest .none [⟨.yld, .named, none, true⟩, Lr 0]) = "ok" := by
+  decide
+
+/-- repr: the totality observer accepts the scoped-value holders with every payload shape and rejects a raising or
+    misdescribing diagnostic; `wellFormed` holds for the flags of the current tree -/
+example : reprClause "scopedValue" "str" (.holder .scopedValue (.tuple 2)) (render (.holder .scopedValue (.tuple 2)) .str) = "ok" ∧
+    reprClause "scopedValue" "str" (.holder .scopedValue (.tuple 2)) (.raised .typeError) = "raises:scopedValue.str" ∧
+    reprClause "scopedValue" "repr" (.holder .scopedValue (.tuple 1)) (.raised .misdescribed) = "raises:scopedValue.repr" ∧
+    wellFormed (.asyncGen [0, 1, 2] [0, 2]) = true ∧ wellFormed (.constInit true) = true ∧
+    wellFormed (.holder .genValue (.tuple 2)) = true := by
   decide
 
 end AsynqModel.Debug
